@@ -74,6 +74,8 @@ struct Live {
     pace: Pace,
     /// (settle epoch in which the removal was first noticed, late requests left)
     late: Option<(u64, u32)>,
+    /// `AttachNoWait`: resolves (true: attached) when the runtime confirms the attachment.
+    pending_confirm: Option<futures::future::BoxFuture<'static, bool>>,
 }
 
 struct OneWayLive {
@@ -121,6 +123,8 @@ pub struct Obs {
     /// (ticket before, ticket after) of the final idle period, if the script had one and the agent was
     /// still running when it began.
     pub final_idle: Option<(u64, u64)>,
+    /// Mutating calls the in-memory store received (conversations hosted with a store).
+    pub store_writes: u64,
 }
 
 fn nz(n: usize) -> NonZeroUsize {
@@ -137,6 +141,7 @@ pub fn runtime_config(cfg: &Config) -> AgentRuntimeConfig {
         shutdown_timeout: Duration::from_secs(30),
         item_init_timeout: Duration::from_secs(5),
         command_output_timeout: NEVER,
+        attachment_queue_size: cfg.queue.map(nz).unwrap_or(AgentRuntimeConfig::default().attachment_queue_size),
         ..Default::default()
     }
 }
@@ -166,9 +171,35 @@ struct Runner {
     /// draining (so that it is known what was still written to them), their writers stay open and silent.
     shadow: Vec<Live>,
     oneway: Vec<Option<OneWayLive>>,
+    agent_tx: mpsc::UnboundedSender<usize>,
 }
 
 impl Runner {
+    /// Attachments made without waiting: has the runtime confirmed them meanwhile?
+    fn confirm_pending(&mut self) {
+        use futures::FutureExt;
+        for live in self.live.iter_mut().flatten().chain(self.shadow.iter_mut()) {
+            if let Some(fut) = live.pending_confirm.as_mut() {
+                if let Some(ok) = fut.now_or_never() {
+                    live.pending_confirm = None;
+                    if ok {
+                        self.sessions[live.session].attached_t1 = Some(ticket());
+                    }
+                }
+            }
+        }
+    }
+
+    /// An attachment that is still unconfirmed when everything has settled.
+    fn check_unconfirmed(&mut self, what: &str) {
+        self.confirm_pending();
+        for live in self.live.iter().flatten().chain(self.shadow.iter()) {
+            if live.pending_confirm.is_some() {
+                self.stuck.push(format!("attach of remote {} not confirmed: {what}", self.sessions[live.session].remote));
+            }
+        }
+    }
+
     /// A second attachment under the id of remote `r`'s open attachment, on fresh channels.
     async fn attach_dup(&mut self, r: usize) {
         let open = self.live[r].as_ref().map_or(false, |l| {
@@ -182,7 +213,7 @@ impl Runner {
         let old_session = old.session;
         self.shadow.push(old);
         let (ci, co, p) = (self.cfg.cap_in[r], self.cfg.cap_out[r], self.cfg.pace[r]);
-        self.attach_as(r, ci, co, p, false, Some(old_session), None).await;
+        self.attach_as(r, ci, co, p, false, Some(old_session), None, true).await;
     }
 
     /// The connection whose attachment the runtime removed for inactivity attaches again under its id, as
@@ -203,7 +234,7 @@ impl Runner {
         let old_session = old.session;
         self.shadow.push(old);
         let (ci, co, p) = (self.cfg.cap_in[r], self.cfg.cap_out[r], self.cfg.pace[r]);
-        self.attach_as(r, ci, co, p, false, None, Some(old_session)).await;
+        self.attach_as(r, ci, co, p, false, None, Some(old_session), true).await;
     }
 
     /// The kept reader of remote `r`'s previous attachment reads again (`drop_it` false) or is dropped.
@@ -296,10 +327,19 @@ impl Runner {
         if let Some(old) = self.live[r].take() {
             self.retire(old, true, true).await;
         }
-        self.attach_as(r, cap_in, cap_out, pace, is_probe, None, None).await;
+        self.attach_as(r, cap_in, cap_out, pace, is_probe, None, None, true).await;
     }
 
-    async fn attach_as(&mut self, r: usize, cap_in: usize, cap_out: usize, pace: Pace, is_probe: bool, dup_of: Option<usize>, prev_open: Option<usize>) {
+    /// A fresh attachment of remote `r`; the script does not wait for the runtime's confirmation.
+    async fn attach_no_wait(&mut self, r: usize) {
+        if let Some(old) = self.live[r].take() {
+            self.retire(old, true, true).await;
+        }
+        let (ci, co, p) = (self.cfg.cap_in[r], self.cfg.cap_out[r], self.cfg.pace[r]);
+        self.attach_as(r, ci, co, p, false, None, None, false).await;
+    }
+
+    async fn attach_as(&mut self, r: usize, cap_in: usize, cap_out: usize, pace: Pace, is_probe: bool, dup_of: Option<usize>, prev_open: Option<usize>, wait: bool) {
         // An attachment is normally a new connection with its own routing id. A connection that the runtime
         // removed for inactivity (completion RemoteTimedOut) attaches again under the SAME id when it has
         // something to say to the agent again (as the server's remote task does); other endings of an
@@ -312,7 +352,7 @@ impl Runner {
             .map(|s| (s.id, matches!(*s.completion.lock(), Some((_, Some(DisconnectionReason::RemoteTimedOut))))));
         let (id, reused_id) = match (dup_of.or(prev_open), prev) {
             (Some(d), _) => (self.sessions[d].id, prev_open.is_some()),
-            (_, Some((id, true))) if !is_probe && self.rng.chance(2, 3) => (id, true),
+            (_, Some((id, true))) if !is_probe && wait && self.rng.chance(2, 3) => (id, true),
             _ => (Uuid::from_u128(0x1000 + self.sessions.len() as u128), false),
         };
         let (req_tx, req_rx) = byte_channel(nz(cap_in));
@@ -339,16 +379,22 @@ impl Runner {
         let t0 = ticket();
         let req = AgentAttachmentRequest::with_confirmation(id, (resp_tx, req_rx), comp_tx, att_done_tx);
         let mut attached_t1 = None;
+        let mut pending_confirm = None;
         if self.att_tx.send(req).await.is_ok() {
-            match tokio::time::timeout(STEP_TIMEOUT, att_done_rx).await {
-                Ok(Ok(())) => attached_t1 = Some(ticket()),
-                Ok(Err(_)) => {}
-                Err(_) => self.stuck.push(format!("attach of remote {r} not confirmed")),
+            if wait {
+                match tokio::time::timeout(STEP_TIMEOUT, att_done_rx).await {
+                    Ok(Ok(())) => attached_t1 = Some(ticket()),
+                    Ok(Err(_)) => {}
+                    Err(_) => self.stuck.push(format!("attach of remote {r} not confirmed")),
+                }
+            } else {
+                use futures::FutureExt;
+                pending_confirm = Some(async move { att_done_rx.await.is_ok() }.boxed());
             }
         }
         self.sessions.push(Session { remote: r, id, attached_t0: t0, attached_t1, reqs, log, completion, attached_v, completion_v, reused_id, stalls: vec![], is_probe, one_way: false, dup_of, prev_open });
         let session = self.sessions.len() - 1;
-        self.live[r] = Some(Live { req_tx: Some(wtx), ctl, drop_signal, reader, reader_done: false, writer, watcher, session, pace, late: None });
+        self.live[r] = Some(Live { req_tx: Some(wtx), ctl, drop_signal, reader, reader_done: false, writer, watcher, session, pace, late: None, pending_confirm });
     }
 
     /// Drop the halves still held.
@@ -491,12 +537,14 @@ impl Runner {
         self.unstall_everything();
         settle().await;
         settle().await;
+        self.check_unconfirmed("checkpoint");
         self.check_stuck("checkpoint");
         self.snapshot();
         self.restore_pace();
     }
 
     async fn step(&mut self, step: &Step) {
+        self.confirm_pending();
         match step {
             Step::Attach(r) => {
                 let (ci, co, p) = (self.cfg.cap_in[*r], self.cfg.cap_out[*r], self.cfg.pace[*r]);
@@ -567,6 +615,10 @@ impl Runner {
                 }
             }
             Step::AttachDup(r) => self.attach_dup(*r).await,
+            Step::AttachNoWait(r) => self.attach_no_wait(*r).await,
+            Step::AgentReg(l) => {
+                let _ = self.agent_tx.send(*l);
+            }
             Step::ReattachOver(r) => self.reattach_over(*r).await,
             Step::ResumeOld(r) => self.old_reader(*r, false).await,
             Step::DropOld(r) => self.old_reader(*r, true).await,
@@ -600,10 +652,11 @@ pub fn run_case(cfg: &Config, script: &[Step], rng: &mut Rng) -> Obs {
             lane_rx.push(rx);
         }
         let (return_tx, return_rx) = oneshot::channel::<bool>();
+        let (agent_tx, agent_rx) = mpsc::unbounded_channel::<usize>();
         let agent = RawAgent {
             specs: cfg2.lanes.clone(),
             shared: shared.clone(),
-            ctl: Mutex::new(Some((lane_rx, return_rx))),
+            ctl: Mutex::new(Some((lane_rx, return_rx, agent_rx))),
             jitter: Mutex::new(Some((rng2.fork(), cfg2.agent_jitter_per_mille))),
         };
         let (att_tx, att_rx) = mpsc::channel(8);
@@ -637,7 +690,10 @@ pub fn run_case(cfg: &Config, script: &[Step], rng: &mut Rng) -> Obs {
         let done2 = done_at.clone();
         let done_v: Arc<Mutex<Option<tokio::time::Instant>>> = Arc::new(Mutex::new(None));
         let done_v2 = done_v.clone();
-        let run = task.run_agent();
+        let store = crate::store::MemStore::default();
+        let store2 = store.clone();
+        let run: futures::future::BoxFuture<'static, Result<(), AgentExecError>> =
+            if cfg2.with_store { Box::pin(task.run_agent_with_store(async move { Ok(store2) })) } else { Box::pin(task.run_agent()) };
         let agent_handle: JoinHandle<Result<(), AgentExecError>> = tokio::spawn(Jitter::new(
             async move {
                 let r = run.await;
@@ -667,6 +723,7 @@ pub fn run_case(cfg: &Config, script: &[Step], rng: &mut Rng) -> Obs {
             http_sent: 0,
             shadow: vec![],
             oneway: (0..cfg2.oneway).map(|_| None).collect(),
+            agent_tx,
         };
 
         let mut agent_handle = Some(agent_handle);
@@ -727,6 +784,7 @@ pub fn run_case(cfg: &Config, script: &[Step], rng: &mut Rng) -> Obs {
             settle().await;
             settle().await;
             settle().await;
+            runner.check_unconfirmed("final quiescence");
             runner.check_stuck("final quiescence");
             runner.snapshot();
             quiescent = Some(ticket());
@@ -734,6 +792,10 @@ pub fn run_case(cfg: &Config, script: &[Step], rng: &mut Rng) -> Obs {
             runner.attach(n, 4096, 1 << 16, FAST, true).await;
             probe_session = Some(runner.sessions.len() - 1);
             for l in 0..n_lanes {
+                // (a late lane that the agent never registered does not exist)
+                if cfg2.lanes[l].late && lane_recs[l].lock().registered.is_none() {
+                    continue;
+                }
                 let name = cfg2.lanes[l].name.clone();
                 runner.send(n, ReqKind::Sync, &name, bytes::Bytes::new());
             }
@@ -799,6 +861,7 @@ pub fn run_case(cfg: &Config, script: &[Step], rng: &mut Rng) -> Obs {
         let init_error = shared.init_error.lock().clone();
         let registered_reporters = runner.reporters.lock().iter().map(|(n, _)| n.clone()).collect();
         let finished_v = *done_v.lock();
+        let store_writes = store.0.lock().writes;
         Obs {
             cfg: cfg2,
             sessions: runner.sessions,
@@ -819,6 +882,7 @@ pub fn run_case(cfg: &Config, script: &[Step], rng: &mut Rng) -> Obs {
             step_times,
             finished_v,
             final_idle,
+            store_writes,
         }
     })
 }
